@@ -19,7 +19,7 @@ from entity_query_language import symbol, predicate
 
 ID = "C08"
 LEVEL = "exploration"
-RULE = ("random histories of 6-16 steps over 12 operation kinds with at most 3 live result iterators and nesting depth "
+RULE = ("random histories of 6-16 steps over 15 operation kinds (incl. re-entering a query object that is already open and evaluating the(...) / a whole an(...) at the current nesting) with at most 3 live result iterators and nesting depth "
         "<= 4; an observation (mode, expression-stack depth, three behaviour probes; every third step also a fresh "
         "thread and an empty Context) after every step, compared with the reference stack machine. Non-trivial: the "
         "history advances, closes, drops or exhausts an iterator while the nesting depth differs from the depth at "
@@ -49,7 +49,7 @@ class Boom(Exception):
     pass
 
 
-OPS_ENTER = ["enter_q", "enter_r", "enter_rq", "enter_qq", "with_query"]
+OPS_ENTER = ["enter_q", "enter_r", "enter_rq", "enter_qq", "with_query", "reenter_open_query"]
 
 
 def plan(tier, seed):
@@ -60,7 +60,8 @@ def plan(tier, seed):
 def floors(tier):
     return {"distinct_nontrivial": 800, "observations": 20000, "op:enter_q": 500, "op:enter_r": 500, "op:enter_rq": 300,
             "op:enter_qq": 300, "op:with_query": 300, "op:leave": 1000, "op:raise_leave": 300, "op:mkit": 1000,
-            "op:next": 1000, "op:close": 300, "op:drop": 300, "op:exhaust": 300, "thread_probes": 3000,
+            "op:next": 1000, "op:close": 300, "op:drop": 300, "op:exhaust": 300, "op:the_eval": 500, "op:an_list": 500,
+            "op:reenter_open_query": 300, "thread_probes": 3000,
             "cls:iterator_op_at_other_depth": 800}
 
 
@@ -70,7 +71,7 @@ def cases(spec, ctx):
         ops = []
         depth, live = 0, 0
         for _ in range(rng.randint(6, 16)):
-            choices = ["mkit"] if live < 3 else []
+            choices = ["mkit", "the_eval", "an_list"] if live < 3 else ["the_eval", "an_list"]
             if depth < 4:
                 choices += OPS_ENTER
             if depth:
@@ -87,6 +88,8 @@ def cases(spec, ctx):
             elif op == "mkit":
                 live += 1
                 ops.append([op])
+            elif op in ("the_eval", "an_list"):
+                ops.append([op])
             else:
                 idx = rng.randrange(live)
                 ops.append([op, idx])
@@ -96,7 +99,7 @@ def cases(spec, ctx):
 
 
 def check_case(case, ctx):
-    from entity_query_language import symbolic_mode, let, an, entity
+    from entity_query_language import symbolic_mode, let, an, the, entity
     from entity_query_language.symbolic import _symbolic_mode, rule_mode, SymbolicExpression, in_symbolic_mode
     from entity_query_language.enums import EQLMode
     bs = [B(1), B(2), B(3), B(4)]
@@ -193,6 +196,26 @@ def check_case(case, ctx):
                 cm = mkq()
                 cm.__enter__()
                 stack.append((None, True, cm))
+            elif name == "reenter_open_query":
+                # the SAME expression object entered again while it is already open (a helper that opens `with query:`
+                # or rule_mode(query) for a query its caller has open)
+                open_q = [c for _, p, c in stack if p and hasattr(c, "_id_")]
+                cm = open_q[-1] if open_q else mkq()
+                if open_q:
+                    ctx.cls("cls:same_query_object_entered_twice")
+                cm.__enter__()
+                stack.append((None, True, cm))
+            elif name == "the_eval":
+                with symbolic_mode():
+                    x1 = let(B, bs)
+                    tq = the(entity(x1, x1.n == 2, pos(x1)))
+                o = tq.evaluate()
+                if type(o) is not B:
+                    fail = {"what": "RESULT_NOT_A_REAL_INSTANCE", "observed": type(o).__name__}
+            elif name == "an_list":
+                for o in mkq().evaluate():
+                    if type(o) is not B:
+                        fail = {"what": "RESULT_NOT_A_REAL_INSTANCE", "observed": type(o).__name__}
             elif name == "leave":
                 _, _, cm = stack.pop()
                 cm.__exit__(None, None, None)
